@@ -118,3 +118,6 @@ BOUNDS = ["chunk arithmetic: <= 4 chunks, interval/buffer unbounded", "stream me
 OUTSIDE = ["measured RSS / tracemalloc peaks (no solver counterpart): the bound is on residues created but not yet written out",
            "sequences hundreds of buffers long: bound is <= 4 chunks; the loop body is the same for every further chunk (stated, not proved)"]
 TRUSTED = ["CrossHair/z3", "provenance model of bytes (vlib/h/fasta.py)", "Python generator laziness"]
+
+TECHNIQUE = ("CrossHair + z3: chunk arithmetic with unbounded interval/buffer, stream memory accounting over the provenance model, indexer family for every buffer size")
+LEVEL_TEXT = ("Buffer size is an unbounded symbolic integer; memory is bounded symbolically as residues created minus residues written.")
